@@ -238,7 +238,7 @@ def rule_v2(chk: Check) -> None:
             chk.finding("V2", tf.key, f"titan-guard:{name}", f"the Titan request parser has no dominating guard that rejects a line with {name}", tf.loc())
         chk.ob("V2", f"Titan parser rejects {name}", ok, f"{len(tests)} candidate tests", evals=max(1, len(tests)))
 
-    guard("no titan:// prefix", lambda e: isinstance(e, ast.Call) and method_call(e) and method_call(e)[1] == "startswith" and dotted(method_call(e)[0]) == line and e.args and isinstance(e.args[0], ast.Constant) and e.args[0].value == "titan://", "F")
+    guard("no titan:// prefix", lambda e: isinstance(e, ast.Call) and method_call(e) and method_call(e)[1] == "startswith" and dotted(method_call(e)[0]) == line and e.args and chk.proj.eval_const(tf.module, e.args[0]) == "titan://", "F")
     guard("no parameters", lambda e: isinstance(e, ast.Compare) and isinstance(e.ops[0], ast.NotIn) and isinstance(e.left, ast.Constant) and e.left.value == ";" and dotted(e.comparators[0]) == line, "T")
     guard("no size parameter", lambda e: isinstance(e, ast.Compare) and isinstance(e.ops[0], ast.NotIn) and isinstance(e.left, ast.Constant) and e.left.value == "size", "T")
     guard("negative size", lambda e: isinstance(e, ast.Compare) and isinstance(e.ops[0], ast.Lt) and isinstance(e.comparators[0], ast.Constant) and e.comparators[0].value == 0, "T")
